@@ -1283,7 +1283,8 @@ def stream_render(ctx: Ctx) -> Stream:
 				toks.append(f'x:{hx(repr(bad))}:{exc_spec(inner)}')
 		e = rng.choice([Errors.Fatal, Errors.Logic, KeyError, Errors.Syntax])(*args)
 		try:
-			real = 'ok ' + hx(ErrorRender(e)._ErrorRender__build_message())
+			with pl.budget():
+				real = 'ok ' + hx(ErrorRender(e)._ErrorRender__build_message())
 		except BaseException as e2:  # noqa: BLE001
 			real = f'raise {display(type(e2))}'
 		cases.append(({'kind': 'msg'}, ['\t'.join(['msg', *toks])], [real]))
@@ -1333,7 +1334,8 @@ def stream_render(ctx: Ctx) -> Stream:
 			node = QNode(f'qz.{name}', (bl, bc, el, ec))
 			e = Errors.Logic(*([node, 'm'] if arg0kind == 'node' else (['m'] if arg0kind == 'other' else [])))
 			try:
-				out = ErrorRender(e)._ErrorRender__build_quotation()
+				with pl.budget():
+					out = ErrorRender(e)._ErrorRender__build_quotation()
 				real = 'ok' if not out else 'ok ' + '|'.join(hx(x) for x in out)
 			except BaseException as e2:  # noqa: BLE001
 				real = f'raise {display(type(e2))}'
@@ -1723,6 +1725,13 @@ def make_syntax_oracle(pipe: pl.Pipeline) -> Any:
 	return syntax_oracle
 
 
+# boundary texts (both modes): nothing at all, blanks only, comments only, line-end and control characters, byte-order marks, bytes that are
+# not UTF-8, a lone continuation, unterminated strings, one very long line / name — the inputs "nobody wrote down" at the small end
+BOUNDARY_TEXTS: list[str | bytes] = ['', '\n', '\n\n\n', ' ', '    ', '\t\n', '# c', '# c\n', '\ufeffa = 1\n', 'a = 1\r\n', 'a = 1\rb = 2\n', '\x0c', 'a = 1\n\x0c\nb = 2\n', '\x00', '\x1a',
+	'\u2028', 'a\xa0= 1\n', 'pass', '\\\n', '\\', 'a = 1 \\', '"""', "'", ';', 'a = 1;', '...', 'a: int\n', 'if True:\n', '\tpass\n', 'a = 1\n\n\n\n   ',
+	b'\xff\xfe', b'\xef\xbb\xbf', b'\xef\xbb\xbfa = 1\n', b'a = "\xe7\xb5"\n', b'\x80', 'a = ' + '1 + ' * 3000 + '1\n', 'x' * 100000 + ' = 1\n']
+
+
 def fuzz_inputs(ctx: Ctx) -> list[tuple[str, str, str | bytes]]:
 	"""(kind, mode, data) — deterministic per seed. The fixed part (corpus, witnesses, seeds, templates) is seed independent."""
 	rng = ctx.sub_rng('fuzz')
@@ -1736,6 +1745,8 @@ def fuzz_inputs(ctx: Ctx) -> list[tuple[str, str, str | bytes]]:
 			out.append(('corpus', m, data))
 	for m in both:
 		out.append(('witness-F3', m, F3_WITNESS))
+		for b in BOUNDARY_TEXTS:
+			out.append(('boundary', m, b))
 	seeds = list(gen.VALID_PROGRAMS) + [s for _, s in gen.fixture_programs()]
 	chunks = [s for _, s in gen.big_fixture_chunks()]
 	for m in both:
@@ -1867,7 +1878,7 @@ def search_fuzz(ctx: Ctx) -> SearchResult:
 	for k in sorted(first):
 		kind, mode, data, o, before = first[k]
 		# corpus witnesses are already minimal, deep-nesting inputs are what they are (and each run of them costs seconds)
-		small = data if kind in ('corpus', 'witness-F3', 'deep-nesting', 'depth-stress') or kind.startswith('project:') else minimise(pipes[mode], data, k)
+		small = data if kind in ('corpus', 'witness-F3', 'boundary', 'deep-nesting', 'depth-stress') or kind.startswith('project:') else minimise(pipes[mode], data, k)
 		history: list[str | bytes] = []
 		conf = pl.fresh_outcome(mode, base, small, post=syntax_oracle)
 		if k not in conf.keys():
@@ -2259,7 +2270,7 @@ CLI_WALL_S = 300.0  # wall safety net: a session cut by it is counted as skipped
 
 
 def _cli_run(root: str, cfg: str, stdin: bytes) -> tuple[str, str]:
-	"""→ (status, stdout): status = 'exit <code>' | 'cpu-cap' | 'wall-cap'"""
+	"""→ (status, stdout): status = 'exit <code>' | 'cpu-cap' | 'wall-cap' (wall safety net or a foreign signal: skipped with a count)"""
 	import resource
 	import signal
 	import subprocess
@@ -2282,12 +2293,11 @@ def _cli_run(root: str, cfg: str, stdin: bytes) -> tuple[str, str]:
 		with contextlib.suppress(Exception):
 			proc.communicate(timeout=10)
 		return 'wall-cap', ''
-	finally:
-		with contextlib.suppress(Exception):
-			os.killpg(proc.pid, signal.SIGKILL)  # a bash helper still waiting for a line
 	text = out.decode('utf-8', errors='replace')
-	if proc.returncode in (-signal.SIGXCPU, -signal.SIGKILL):
+	if proc.returncode == -signal.SIGXCPU:
 		return 'cpu-cap', text
+	if proc.returncode < 0:  # ended by another signal (the machine's OOM killer, an operator): not an observation of the code
+		return 'wall-cap', text
 	return f'exit {proc.returncode}', text
 
 
@@ -2307,12 +2317,12 @@ def _cli_verdict(lines: list[bytes], status: str, out: str) -> tuple[str, str] |
 	# what ended the session: `finally: print('Quit')` comes first, then the module's __main__ block prints the exception that left
 	# Interactive.run (ErrorRender: stack of `  file:line func` entries, `module.Class: (args)` last) or CPython prints a traceback
 	last_quit = max((i for i, ln in enumerate(tail) if ln == 'Quit'), default=-1)
-	after = tail[last_quit + 1:] if last_quit >= 0 else []
+	after = tail[last_quit + 1:] if last_quit >= 0 else tail  # no `Quit` at all: the loop was never entered
 	what = f'the interactive process ended with {status} after {got_prompts} of {want_prompts} prompts; last lines {tail[-3:]!r}'
-	if not after:
+	m = re.match(r'^([A-Za-z_][\w.]*): ', after[-1]) if after else None
+	if m is None:
 		return f'cli:requests-not-served[{status}]', what
-	m = re.match(r'^([A-Za-z_][\w.]*)\b', after[-1])
-	cls = m.group(1).split('.')[-1] if m else 'unknown'
+	cls = m.group(1).split('.')[-1]
 	frames = [fm.group(1) + ':' + fm.group(2) for ln in after for fm in [re.match(r'^\s+(?:\S*?rogw/tranp/)(\S+?\.py):\d+ (\S+)$', ln)] if fm]
 	return f'cli:{cls}@{frames[-1] if frames else "?"}', what
 
@@ -2387,7 +2397,7 @@ def search_cli_sessions(ctx: Ctx) -> SearchResult:
 			continue
 		if status == 'wall-cap':
 			skipped += 1
-			hist['wall-cap (skipped)'] += 1
+			hist['wall-cap or foreign signal (skipped)'] += 1
 			continue
 		v = _cli_verdict(lines, status, out)
 		hist['served' if v is None else v[0]] += 1
@@ -2397,7 +2407,7 @@ def search_cli_sessions(ctx: Ctx) -> SearchResult:
 		res.findings.append(Finding(key=v[0], what=v[1] + f' — stdin lines {lines!r}', replay={'kind': 'cli-session', 'lines_hex': [ln.hex() for ln in lines], 'status': status}))
 		ctx.notes.append(f'finding key={v[0]} | stdin lines {lines!r}')
 	if skipped:
-		ctx.notes.append(f'cli-sessions: {skipped} session(s) skipped (process not started or {CLI_WALL_S:.0f} s wall cap)')
+		ctx.notes.append(f'cli-sessions: {skipped} session(s) skipped (process not started, ended by a foreign signal, or {CLI_WALL_S:.0f} s wall cap)')
 	res.distinct = len({tuple(t) for t in transcripts})
 	res.histogram = dict(hist)
 	res.note = (f'{len(transcripts)} keyboard transcripts as raw bytes (blank and whitespace-only lines, trailing blanks, non-ASCII text, bytes that are not UTF-8, control bytes); '
@@ -2505,7 +2515,7 @@ STATEMENTS = {
 	'tty_raise_unprotected': 'NEGATIVE (the hazard behind finding cli:UnicodeDecodeError@bin/io.py:readline): `lines = tty(prompt)` is outside the inner try — every exception of tty()/readline other than KeyboardInterrupt, Errors.Error included, ends the session',
 	'tty_request_shape': 'for every keyboard transcript tty() hands over a request without empty lines, containing the quit line only as the whole quit command, and consumes at least one key',
 	'tty_quit_typed': 'the keys left by tty() are keys of the transcript; the quit command is handed over only when the quit line was typed',
-	'session_survives': 'for EVERY keyboard transcript and every serving of requests with outcomes in {ok} ∪ Errors.Error (printable), Interactive.run ends at the prompt or through the quit command, and the latter only when the quit line was typed',
+	'session_survives': 'for EVERY keyboard transcript and every serving of requests — depending on the request and on everything served before — with outcomes in {ok} ∪ Errors.Error (printable), Interactive.run ends at the prompt or through the quit command, and the latter only when the quit line was typed',
 	'session_fuel_irrelevant': 'the fuel of the session model is never the reason a session stops (any two fuels above the number of keys agree)',
 	'turn_unload_unprotected': 'the unload stage of rebuild_module runs outside Modules.load: a non-hierarchy Exception raised there ends the loop (hazard; not reachable by input on HEAD)',
 	'unload_clears_importers': 'for a duplicate-free registry Modules.unload(p) ends with p gone and no registered module importing p (no non-library module left when p is a library) — the law searched on the real code as graph-unload:stale-importer',
@@ -2521,6 +2531,28 @@ STATEMENTS = {
 }
 
 
+def _guarded(ctx: Ctx, fn: Any, crashes: SearchResult) -> Any:
+	"""Safety net: a stream / search that cannot complete on THIS tree (an exception of the real code in a place no oracle wraps, e.g.
+	while the rig builds the App) must not end the check with exit 2 — that would be a missed change. The unchanged tree completes every
+	one of them, so the crash itself is the observation: reported as a finding with the innermost frames, the other streams still run."""
+	import traceback
+	crashes.cases += 1
+	try:
+		return fn(ctx)
+	except (KeyboardInterrupt, SystemExit, common.InfraError):
+		raise
+	except BaseException as e:  # noqa: BLE001
+		frames = traceback.extract_tb(e.__traceback__)
+		inner = [f for f in frames if 'rogw' + os.sep + 'tranp' in f.filename]
+		where = (inner[-1].filename.split('rogw' + os.sep + 'tranp' + os.sep)[-1] + ':' + inner[-1].name) if inner else 'harness'
+		key = f'crash:{fn.__name__}:{type(e).__name__}@{where}'
+		tail = [f'{os.path.basename(f.filename)}:{f.lineno} {f.name}' for f in frames[-6:]]
+		crashes.findings.append(Finding(key=key, what=f'{fn.__name__} could not complete on this tree: {type(e).__name__}: {str(e)[:200]} — frames {tail}',
+			replay={'kind': 'crash', 'stage': fn.__name__, 'frames': tail}))
+		ctx.notes.append(f'finding key={key} | {fn.__name__} raised {type(e).__name__}: {str(e)[:200]}')
+		return None
+
+
 def run(ctx: Ctx) -> int:
 	translate_ok, translate_msg = True, ''
 	with ctx.timed('translate'):
@@ -2533,17 +2565,25 @@ def run(ctx: Ctx) -> int:
 			print(f'[{PROP}] translator failed (the tie is broken): {translate_msg}', file=sys.stderr)
 	proof = common.prove(ctx, PROP, leanchecker=ctx.thorough)
 	streams: list[Stream] = []
+	crashes = SearchResult('every stream and search completes on this tree (an exception of the real code outside every oracle is reported, not an infrastructure failure)')
 	if proof.built:
 		with ctx.timed('correspondence'):
 			streams = []
 			for fn in (stream_hierarchy, stream_proc, stream_parse, stream_load, stream_graph, stream_writer, stream_loop, stream_render, stream_trace, stream_main):
 				with ctx.timed(f'stream:{fn.__name__}'):
-					streams.append(fn(ctx))
+					st = _guarded(ctx, fn, crashes)
+					if st is not None:
+						streams.append(st)
 	with ctx.timed('search'):
 		searches = []
 		for fn in (search_f3_replay, search_laws, search_cache_history, search_loop_histories, search_cli_sessions, search_fuzz):
 			with ctx.timed(f'search:{fn.__name__}'):
-				searches.append(fn(ctx))
+				sr = _guarded(ctx, fn, crashes)
+				if sr is not None:
+					searches.append(sr)
+	crashes.distinct = crashes.cases
+	crashes.histogram = {'completed': crashes.cases - len(crashes.findings), 'crashed': len(crashes.findings)}
+	searches.append(crashes)
 	_report_deadlines(ctx)
 	wrapped = bool(ctx.generated_tables and ctx.generated_tables[0].get('mem_branch_wrapped'))
 	ctx.notes.append('in-memory parser branch on this tree: ' + ('wrapped (parse_mem_fixed applies)' if wrapped else 'NOT wrapped (parse_mem_counterexample applies; F3)'))
@@ -2569,6 +2609,18 @@ def replay(ctx: Ctx, path: str) -> int:
 	with open(path, encoding='utf-8') as f:
 		rec = json.load(f)
 	print(json.dumps({k: v for k, v in rec.items() if k != 'input'}, indent=1)[:2000])
+	if rec.get('kind') == 'failing-input' and rec['input'].get('kind') == 'crash':
+		fn = globals().get(str(rec['input'].get('stage')))
+		crashes = SearchResult('')
+		if callable(fn) and str(rec['input'].get('stage')).startswith(('stream_', 'search_')):
+			_guarded(ctx, fn, crashes)
+		known = {k['key'] for k in common.load_known(PROP) if k.get('status') == 'known'}
+		bad = [f for f in crashes.findings if f.key not in known]
+		print(f"replay: stage {rec['input'].get('stage')} -> {'; '.join(f.what[:300] for f in crashes.findings) or 'completed'}")
+		if bad:
+			print(f'VIOLATION property={PROP} replay={os.path.relpath(path, common.VERIF)}')
+		ctx.cleanup()
+		return 1 if bad else 0
 	if rec.get('kind') == 'failing-input' and rec['input'].get('kind') == 'cli-session':
 		lines = [bytes.fromhex(h) for h in rec['input']['lines_hex']]
 		root = ctx.tmpdir()
